@@ -32,6 +32,8 @@ HARNESSES = {
     "index_ijson":          ("process_index", "index.rfc.len_le_3", "bounded"),
     "index_any_i64_probe":  ("process_index", "index.no_precondition", "probe"),
 }
+# harness unit -> name under which native.CEX_GROUPS lists the bounded groups that can stand in for it
+KANI_STANDIN_UNIT = {"eq/lt": "kani:cmp", "eq": "kani:cmp", "lt": "kani:cmp", "cmp_i64_f64": "kani:cmp", "process_index": "process_index"}
 BY_PROP = {
     "C04": ["num_int_int", "num_float_float", "eq_int_float", "eq_float_int", "lt_int_float", "lt_float_int",
             "mixed_shapes_small", "cross_types", "nothing", "contract_cmp_i64_f64", "canary_must_fail"],
@@ -203,6 +205,16 @@ def run_for(run):
                "status": st, "time_s": r.get("time"), "covers": r.get("covers")}
         run.unit_reports.append(rep)
         if st is None:
+            if "TIMEOUT" not in out and kind in ("complete", "bounded"):
+                # the harness does not build against this tree (it IS a call of the function, whose signature changed): the function is out of
+                # Kani's reach on this tree; a bounded check of it may stand in (driver.resolve_standins), labelled and never counted as discharged
+                if kind == "complete":
+                    run.obligations += 1
+                rep["status"] = "undecided"
+                run.standin_candidates.append((KANI_STANDIN_UNIT.get(unit, unit), f"kani harness {h} does not build against this tree: " + out[-160:].replace("\n", " | "), rep))
+                continue
+            if kind == "canary" and "TIMEOUT" not in out and not any(res.get(x, {}).get("status") for x in names if harness_file(x) == harness_file(h)):
+                continue      # nothing of this harness file was built: the canary says nothing more than the harnesses it guards
             run.undecided.append(f"kani harness {h}: no result ({'timeout' if 'TIMEOUT' in out else 'build/tool failure'}): " + out[-300:].replace("\n", " | "))
             continue
         if kind == "canary":
